@@ -103,7 +103,32 @@ def kind_schemas():
         ("union-num-int", {"type": ["number", "integer"]}, {}),
         ("array", {"type": "array", "items": {"type": "string"}}, {}),
         ("object", {"type": "object", "properties": {"a": {"type": "string"}}}, {}),
-    ]
+    ] + ref_kinds()
+
+
+REF = lambda n: {"$ref": "#/components/schemas/" + n}
+FALSY = [0, 0.0, -0.0, False, "", {}, []]
+
+
+def ref_kinds():
+    """A default declared NEXT TO a reference: allOf / oneOf / anyOf wrappers around a single $ref to a component (vals.REF_COMPONENTS)."""
+    out = []
+    for w, comps in (("allOf", list(vals.REF_COMPONENTS)), ("oneOf", ["RPriority", "RFlag", "RName", "RNum"]), ("anyOf", ["RMode", "RFlag", "RCnt", "RDay"])):
+        for c in comps:
+            out.append((f"ref-{w}-{c}", {w: [REF(c)]}, {}))
+    out.append(("ref-allOf-RPriority-lit", {"allOf": [REF("RPriority")]}, {"literal_enums": True}))
+    out.append(("ref-allOf-RMode-lit", {"allOf": [REF("RMode")]}, {"literal_enums": True}))
+    return out
+
+
+def resolve(sch):
+    """A single-$ref wrapper (or bare $ref) -> the component schema it points at; anything else unchanged."""
+    if isinstance(sch, dict) and set(sch) == {"$ref"}:
+        return vals.REF_COMPONENTS[sch["$ref"].rsplit("/", 1)[1]]
+    for w in ("allOf", "oneOf", "anyOf"):
+        if isinstance(sch, dict) and w in sch and len(sch[w]) == 1 and set(sch[w][0]) == {"$ref"} and not (set(sch) - {w, "default"}):
+            return resolve(sch[w][0])
+    return sch
 
 
 def collect_oracle_inputs(values):
@@ -141,7 +166,7 @@ def stage_b(run, tier, values, kinds):
         if sch is None or label in ("array", "object", "binary"):
             continue   # on these routes property_from_data never passes the default to convert_value
         # through property_from_data with `default` set (a subset of values for the slower route)
-        sub = values if tier == "thorough" else values[::3]
+        sub = values if (tier == "thorough" or label.startswith("ref-")) else values[::3]
         for v in sub:
             s2 = dict(sch)
             s2["default"] = v
@@ -188,6 +213,10 @@ def stage_b(run, tier, values, kinds):
 
 # ------------------------------------------------------------------ stage C (end to end)
 HEADER_OK = {"string", "uuid", "integer", "number", "boolean", "enum-str", "enum-int", "lit-str", "lit-int"}
+
+
+def header_ok(label):
+    return label in HEADER_OK or (label.startswith("ref-") and "RDay" not in label)
 STAGE_C_SKIP = {"array", "object", "const-dq", "null"}
 
 
@@ -220,6 +249,7 @@ def strict_typed(sch, v, literal):
     """JSON-Schema-strict reading of `v` as a default of schema `sch`: list of acceptable typed descriptors ([] = ill-typed).
     An enum member is described as {"t":"member","value":...}."""
     from dateutil.parser import isoparse
+    sch = resolve(sch)
     if "enum" in sch:
         vs = [x for x in sch["enum"] if x is not None]
         if any(type(x) is type(v) and x == v for x in vs):
@@ -301,6 +331,11 @@ def relevant_values(label, values, rng, tier):
             "const-str": ["a", "A", "b", 1, ""], "const-int": [3, 3.0, "3", 4, True], "const-float": [3.0, 3, "3.0", 2.5], "const-bool": [True, False, 1, "true", "True"],
             "union-int-str": [3, "3", 3.0, "a", True, 1.5, 'a"b'], "union-str-int": [3, "3", "a", 3.0, True], "union-bool-num": [True, 1, 1.5, "true", "1.5", 0],
             "union-date-dt": DATE_STR[:8] + [3], "union-int-null": [3, "3", 3.0, "a", 3.5], "union-enum-uuid": ["a", "c", CANON_UUID, "b", 1], "union-num-int": [3, 3.0, "3", 1.5, True]}
+    if label.startswith("ref-"):
+        comp = label.split("-")[2]
+        own_by = {"RPriority": [1, 2, 3, True, "0", 1.0], "RMode": ["a", "b", "c", "A", 1], "RFlag": [True, "false", "False", 1], "RName": ["x", 'q"t', "None", 1],
+                  "RNum": [1.5, 3, "0", "0.0", True, float("inf")], "RCnt": [7, 2.0, 2.5, "0", True], "RDay": ["2020-01-02", "2020-13-01", "20200102", 20200102]}
+        cats = {label: FALSY + own_by[comp]}
     own = [v for v in cats.get(label, []) if not (isinstance(v, str) and not vals.is_jsonable_str(v))]
     generic = [5, True, 1.5, "x", "3", [1, 2], {"a": True}]
     cap = 26
@@ -310,7 +345,7 @@ def relevant_values(label, values, rng, tier):
         own = own[:10] + rng.sample(own[10:], cap - 10)
     out = []
     for v in own + generic:
-        if not any(type(v) is type(w) and (v == w or (v != v and w != w)) for w in out):
+        if not any(type(v) is type(w) and (repr(v) == repr(w)) for w in out):
             out.append(v)
     return out
 
@@ -335,7 +370,7 @@ def stage_c(run, tier, values, kinds, hdr, facts):
         literal = bool(cfg.get("literal_enums"))
         for v in relevant_values(label, values, rng, tier):
             loc = locs_cycle[idx % 3]
-            if loc == "header" and label not in HEADER_OK:
+            if loc == "header" and not header_ok(label):
                 loc = "query"
             r = vals.observe_convert(b[1], v)
             cases.append({"i": idx, "kind": label, "sch": sch, "literal": literal, "value": v, "loc": loc, "ckind": ck, "conv": r,
@@ -359,6 +394,7 @@ def stage_c(run, tier, values, kinds, hdr, facts):
             schemas[f"M{c['i']}"] = {"type": "object", "properties": {"x": s2}}
             paths[f"/p{c['i']}"] = {"get": {"operationId": f"op{c['i']}", "parameters": [{"name": "x", "in": c["loc"], "required": False, "schema": s2}],
                                             "responses": {"200": {"description": "ok"}}}}
+        schemas.update(vals.REF_COMPONENTS)
         doc = impl.base_doc(components={"schemas": schemas}, paths=paths)
         with impl.Gen(doc, cfg={"literal_enums": grp[0]["literal"]}) as g:
             info = {"exc": repr(g.exc) if g.exc else None, "diag": g.diag()}
@@ -428,12 +464,21 @@ def stage_c(run, tier, values, kinds, hdr, facts):
                     emitted = obs.get("t") != "unset"
                     hasdiag = has_ep_diag
                     td = None
+                    # omitting the argument must SEND the declared default: it has to be present in the request the function builds
+                    box = {"query": "params", "header": "headers", "cookie": "cookies"}[c["loc"]]
+                    kw = E.get("kwargs", {}).get("v", {}) if "kwargs" in E else None
+                    if exp and kw is not None and any(desc_eq(obs, e) for e in exp):
+                        sent = kw.get(box, {"t": "none"})
+                        if sent.get("t") != "dict" or "x" not in sent.get("v", {}):
+                            fails.append((c, route, "not-sent", f"default {v!r} is the signature default but the request built with no arguments does not carry x in {box}: {sent!r}"[:400]))
+                        elif c["loc"] == "query":
+                            td = sent["v"]["x"]
             if exp:
                 if obs is None:
                     fails.append((c, route, "rejected", f"well-typed default {v!r} rejected: artefact not generated (diagnostic: {hasdiag})"))
                 elif not any(desc_eq(obs, e) for e in exp):
                     fails.append((c, route, "wrong-value", f"default {v!r} became {obs!r}, expected one of {exp!r}"))
-                elif route == "model" and td is not None:
+                elif td is not None:
                     # omitting the argument encodes the declared default: re-read the encoded value with the strict reader
                     wire = td
                     ok = True
@@ -539,6 +584,176 @@ def classify_c(run, fails, hdr):
                                      "note": "stage C: the generated default is not the declared typed value / an ill-typed default is not rejected, and the Coq guard does not attribute it to a listed finding"})
 
 
+# ------------------------------------------------------------------ allOf-merged defaults (merge_properties._merge_common_attributes)
+# (label, wide schema, narrow schema, literal_enums, defaults inside the narrowed set, defaults valid for the wide member only)
+MERGE_PAIRS = [
+    ("enum-str", {"type": "string", "enum": ["fast", "slow", "off"]}, {"type": "string", "enum": ["fast", "off"]}, False, ["fast", "off"], ["slow"]),
+    ("enum-int", {"type": "integer", "enum": [0, 1, 2]}, {"type": "integer", "enum": [0, 1]}, False, [0, 1], [2]),
+    ("lit-str", {"type": "string", "enum": ["fast", "slow", "off"]}, {"type": "string", "enum": ["fast", "off"]}, True, ["fast", "off"], ["slow"]),
+    ("lit-int", {"type": "integer", "enum": [0, 1, 2]}, {"type": "integer", "enum": [0, 1]}, True, [0, 1], [2]),
+    ("num-int", {"type": "number"}, {"type": "integer"}, False, [3, 0, 2.0], [2.5]),
+    ("str-date", {"type": "string"}, {"type": "string", "format": "date"}, False, ["2020-01-02"], ["abc", ""]),
+    ("str-datetime", {"type": "string"}, {"type": "string", "format": "date-time"}, False, ["2020-01-02T03:04:05Z"], ["abc"]),
+    ("str-enum", {"type": "string"}, {"type": "string", "enum": ["a", "b", ""]}, False, ["a", ""], ["zz"]),
+    ("int-enum", {"type": "integer"}, {"type": "integer", "enum": [0, 1]}, False, [0, 1], [7]),
+    ("str-lit", {"type": "string"}, {"type": "string", "enum": ["a", "b", ""]}, True, ["a", ""], ["zz"]),
+    ("int-lit", {"type": "integer"}, {"type": "integer", "enum": [0, 1]}, True, [0, 1], [7]),
+    ("same-int", {"type": "integer"}, {"type": "integer"}, False, [0, 5], []),
+    ("same-bool", {"type": "boolean"}, {"type": "boolean"}, False, [False, True], []),
+    ("same-str", {"type": "string"}, {"type": "string"}, False, ["", "x"], []),
+    ("same-num", {"type": "number"}, {"type": "number"}, False, [0.0, 1.5], []),
+]
+
+
+def merge_cases(tier):
+    out = []
+    for label, wide, narrow, lit, ins, outs in MERGE_PAIRS:
+        combos = [(ins[0], None), (None, ins[0]), (ins[0], ins[-1]), (ins[-1], None), (None, ins[-1])] + [(o, None) for o in outs]
+        if tier == "thorough":
+            combos += [(a, b) for a in ins for b in ins] + [(None, None)]
+        seen = set()
+        for dw, dn in combos:
+            for order in ("wide-first", "narrow-first"):
+                k = (repr(dw), repr(dn), order)
+                if k in seen:
+                    continue
+                seen.add(k)
+                out.append({"pair": label, "wide": wide, "narrow": narrow, "literal": lit, "dw": dw, "dn": dn, "order": order, "outside": dw in outs and dw not in ins})
+    for i, c in enumerate(out):
+        c["i"] = i
+    return out
+
+
+def _stale_enum_case(c):
+    """Exact input class of the listed finding merge_enum_default_stale_class: enum/enum (or literal/literal) merge that switches to the
+    SECOND member's smaller value set while only the FIRST member declares a default (that Value is kept as is)."""
+    return c["pair"] in ("enum-str", "enum-int", "lit-str", "lit-int") and c["order"] == "wide-first" and c["dw"] is not None and c["dn"] is None
+
+
+def stage_merge(run, tier):
+    import props.c15 as M
+    enc = M.Enc()
+    cases = merge_cases(tier)
+    terms, meta, pfails = [], [], []
+    for c in cases:
+        sw, sn = dict(c["wide"]), dict(c["narrow"])
+        if c["dw"] is not None:
+            sw["default"] = c["dw"]
+        if c["dn"] is not None:
+            sn["default"] = c["dn"]
+        first, second = (sw, sn) if c["order"] == "wide-first" else (sn, sw)
+        p1 = M.build_prop(first, False, c["literal"], name="x", parent="Base")
+        p2 = M.build_prop(second, False, c["literal"], name="x", parent="Ext")
+        if p1 is None or p2 is None:
+            run.violation("harness-error", {"note": "merge member does not build", "case": {k: c[k] for k in ("pair", "dw", "dn", "order")}})
+            continue
+        t1, t2 = enc.prop(p1), enc.prop(p2)
+        d1 = p1.default
+        res = M.real_merge(p1, p2)
+        terms.append(f"mres_eqb (merge o {t1} {t2}) {M.obs_term(enc, res)}")
+        summ = res[0] if res[0] != "ok" else "ok:" + type(res[1]).__name__ + (":default=" + res[1].default.python_code if res[1].default else ":no-default")
+        meta.append({"c": c, "impl": summ, "term": f"merge o {t1} {t2}"})
+        run.note_case({"route": "merge_properties", **{k: repr(c[k]) for k in ("pair", "dw", "dn", "order")}}, nontrivial=c["dw"] is not None or c["dn"] is not None, kind="B:merge:" + c["pair"])
+        # parser-level oracle: the surviving default is convert_value of the FINAL property on the raw value
+        if res[0] == "ok" and res[1].default is not None:
+            r = res[1]
+            try:
+                again = r.convert_value(r.default.raw_value)
+            except Exception as e:  # noqa
+                again = repr(e)
+            if again != r.default:
+                pfails.append((c, f"merged {type(r).__name__} keeps default {r.default!r} but its own convert_value gives {again if not hasattr(again, 'detail') else 'PropertyError: ' + str(again.detail)!r}"))
+        elif res[0] == "ok" and res[1].default is None and (c["dw"] is not None or c["dn"] is not None):
+            pfails.append((c, "a declared default disappeared in the merge without an error"))
+        elif res[0] == "err" and not c["outside"]:
+            pfails.append((c, f"merge rejected although every declared default is inside the narrowed type: {res[1]}"))
+    hdr = enc.header()
+    bad = run_cases(hdr, terms)
+    for i in bad[:8]:
+        m = meta[i]
+        model = coq_eval(hdr, m["term"])
+        run.violation("correspondence", {"route": "merge_properties", "kind": m["c"]["pair"], "input": [m["c"]["dw"], m["c"]["dn"]], "order": m["c"]["order"], "impl": m["impl"], "model": model[-500:],
+                                         "note": "merge_properties (default handling of _merge_common_attributes) disagrees with Merge.merge"})
+    for c, detail in pfails:
+        tag = f"allOf merge {c['pair']} ({c['order']}, defaults wide={c['dw']!r} narrow={c['dn']!r}): {detail}"[:400]
+        if not (_stale_enum_case(c) and run.known_finding("merge_enum_default_stale_class", tag)):
+            run.violation("oracle", {"route": "merge_properties", "kind": c["pair"], "input": [c["dw"], c["dn"]], "order": c["order"], "detail": detail[:400],
+                                     "note": "the default that survives an allOf merge is not convert_value of the final (narrower) property on the raw value"})
+    # ---- end to end: Combined = allOf[$ref Base, $ref Ext]
+    fails = []
+    groups = {}
+    for c in cases:
+        if c["dw"] is None and c["dn"] is None:
+            continue
+        groups.setdefault(c["literal"], []).append(c)
+    for lit, cs in groups.items():
+        for k in range(0, len(cs), 40):
+            grp = cs[k:k + 40]
+            schemas = {}
+            for c in grp:
+                sw, sn = dict(c["wide"]), dict(c["narrow"])
+                if c["dw"] is not None:
+                    sw["default"] = c["dw"]
+                if c["dn"] is not None:
+                    sn["default"] = c["dn"]
+                first, second = (sw, sn) if c["order"] == "wide-first" else (sn, sw)
+                j = c["i"]
+                schemas[f"Bs{j}"] = {"type": "object", "properties": {"x": first}}
+                schemas[f"Ex{j}"] = {"type": "object", "properties": {"x": second}}
+                schemas[f"Cm{j}"] = {"allOf": [REF(f"Bs{j}"), REF(f"Ex{j}")]}
+            with impl.Gen(impl.base_doc(components={"schemas": schemas}), cfg={"literal_enums": lit}) as g:
+                diag = g.diag()
+                files = g.files() if g.out.exists() else {}
+                if g.exc is not None or not files:
+                    for c in grp:
+                        fails.append((c, "crash", repr(g.exc)))
+                    continue
+                jobs = [{"what": "model", "module": f"models.cm{c['i']}", "cls": f"Cm{c['i']}", "attrs": ["x"], "construct": True, "probes": []} for c in grp]
+                inp = json.dumps({"pkg_parent": str(g.out.parent), "pkg": g.out.name, "jobs": jobs})
+                env = {k: v for k, v in os.environ.items() if k != "PYTHONPATH"}
+                env["PYTHONHASHSEED"] = "0"
+                r = subprocess.run([PY, "-I", "-W", "ignore", str(Path(__file__).resolve().parents[1] / "lib" / "gen_runner.py")], input=inp, capture_output=True, text=True, timeout=900, env=env)
+                try:
+                    res = json.loads(r.stdout.split("\n@@RESULT@@\n", 1)[1])
+                except Exception:
+                    res = None
+                import re
+                for n, c in enumerate(grp):
+                    run.note_case({"route": "allOf", **{k: repr(c[k]) for k in ("pair", "dw", "dn", "order")}}, nontrivial=True, kind="C:merge:" + c["pair"])
+                    if not isinstance(res, list):
+                        fails.append((c, "crash", "runner failed: " + (r.stderr or r.stdout)[-300:]))
+                        continue
+                    # the effective declared default: the later member's if it declares one, else the earlier member's
+                    later, earlier = (c["dn"], c["dw"]) if c["order"] == "wide-first" else (c["dw"], c["dn"])
+                    deff = later if later is not None else earlier
+                    exp = strict_typed(c["narrow"], deff, lit)
+                    if c["outside"]:
+                        exp = []      # a default outside the narrowed type anywhere in the chain must be reported
+                    hasdiag = any(re.search(r"/Cm%d\b" % c["i"], (h or "") + (d or "")) for _, h, d in diag)
+                    if f"models/cm{c['i']}.py" not in files:
+                        if exp:
+                            fails.append((c, "rejected", f"composed schema not generated although the effective default {deff!r} is inside the narrowed type (diagnostic: {hasdiag})"))
+                        elif not hasdiag:
+                            fails.append((c, "ill-silent", "composed schema dropped without a diagnostic"))
+                        continue
+                    Mo = res[n]
+                    if "import_error" in Mo or "runner_error" in Mo or "construct_error" in Mo:
+                        fails.append((c, "broken", Mo.get("import_error") or Mo.get("runner_error") or Mo.get("construct_error")))
+                        continue
+                    obs = Mo["attrs"]["x"]
+                    if exp:
+                        if not any(desc_eq(obs, e) for e in exp):
+                            fails.append((c, "wrong-value", f"effective default {deff!r} became {obs!r}, expected {exp!r}"))
+                    elif obs.get("t") != "unset":
+                        fails.append((c, "ill-emitted", f"default outside the narrowed type emitted as {obs!r}"))
+    for c, what, detail in fails:
+        tag = f"allOf[Base, Ext] {c['pair']} ({c['order']}, defaults wide={c['dw']!r} narrow={c['dn']!r}): {what}: {detail}"[:400]
+        if not (_stale_enum_case(c) and what in ("broken", "wrong-value", "ill-emitted") and run.known_finding("merge_enum_default_stale_class", tag)):
+            run.violation("oracle", {"route": "allOf", "kind": c["pair"], "input": [c["dw"], c["dn"]], "order": c["order"], "what": what, "detail": str(detail)[:400],
+                                     "note": "stage C: the default of the composed (allOf) class is not the declared default re-typed by the narrowed property / an out-of-range default is not rejected"})
+    return len(terms), len(bad)
+
+
 def run(run, tier, replay=None):
     values = value_pool(run.rng, tier)
     kinds = kind_schemas()
@@ -560,6 +775,10 @@ def run(run, tier, replay=None):
                 "what": "convert_value of all 16 real property classes (direct and via property_from_data) == Values.convert_value with oracles tabulated from the real float()/isoparse/UUID"}
     nc = stage_c(run, tier, values, kinds, hdr, facts)
     run.extra["stage_c_cases"] = nc
+    nm, bm = stage_merge(run, tier)
+    run.corr["cases"] += nm
+    run.corr["mismatches"] += bm
+    run.corr["what"] += "; merge_properties on same-class / narrowing pairs with defaults == Merge.merge"
     run.assumptions += ["float(), str(float), dateutil isoparse and uuid.UUID are oracles: the model takes their results from tables computed by the real functions on the strings of the run; "
                         "only the token class of str(float) is used (sampled law: float literal token or inf/-inf/nan)",
                         "default_class code 9 (string not repr-printable) is a restriction of the model's literal lexer, not a defect class; such defaults are covered by the correspondence and the oracle only",
